@@ -166,6 +166,18 @@ Example C08_both_slots :
   g_proc g' = Some (CDb 7) /\ ts_slot (thread g' 0) = Some (CDb 0) /\ resolve g' 1 = Some (CDb 7).
 Proof. vm_compute. repeat split. Qed.
 
+(* a body that creates and fetches nothing through the transaction: it assigns to and destroys instances loaded before the
+   call and deletes at class level, then raises -- nothing of it stays *)
+Example C08_preloaded_only :
+  let body := [BWrite 1 0 (v 60); BErase 2; BDeleteMany 1; BFail 3] in
+  let g := g_thr [body] in
+  let g' := run_sched g (repeat 0%nat (length body + 2)) in
+  body_result tab0 body = Raised (XUser 3) 3 /\
+  ts_phase (thread g' 0) = PDone (Raised (XUser 3) 3) (Some finished) /\ g_committed g' = tab0 /\
+  t_rows (body_table tab0 (firstn 3 body)) = [] /\
+  t_rows (g_committed (run_sched (g_thr [firstn 3 body]) (repeat 0%nat 5))) = [].
+Proof. vm_compute. repeat split. Qed.
+
 Example C08_body1_alone :
   body_result tab0 body1 = Return [3] /\
   t_rows (body_table tab0 body1) = [(1, [v 9; v 1]); (3, [v 3; None])] /\
